@@ -22,6 +22,7 @@ use crate::{
     intermediate::{
         constraints::*,
         information_object::{ClassLink, ToplevelInformationDefinition},
+        parameterization::ParameterGovernor,
         types::*,
         *,
     },
@@ -131,7 +132,39 @@ impl Validator {
                         // Keep the definition visible while its constraints are linked:
                         // a bound may refer to one of its own named numbers or enumerals
                         self.tlds.insert(key.clone(), tld.clone());
-                        if let Err(mut e) = tld.link_constraint_reference(&self.tlds) {
+                        // The dummy references of a parameterized type are bound when the type is
+                        // instantiated: in module scope they stand for themselves, whatever value or
+                        // named number happens to share their name
+                        let dummy_scope = match &tld {
+                            ToplevelDefinition::Type(ToplevelTypeDefinition {
+                                parameterization: Some(p),
+                                ..
+                            }) => {
+                                let mut scope = self.tlds.clone();
+                                for param in &p.parameters {
+                                    if let ParameterGovernor::TypeOrClass(governor) = &param.param_governor {
+                                        let dummy = ASN1Value::ElsewhereDeclaredValue {
+                                            module: None,
+                                            identifier: param.dummy_reference.clone(),
+                                            parent: None,
+                                        };
+                                        scope.insert(
+                                            param.dummy_reference.clone(),
+                                            ToplevelDefinition::Value(ToplevelValueDefinition::from((
+                                                param.dummy_reference.as_str(),
+                                                dummy,
+                                                governor.clone(),
+                                            ))),
+                                        );
+                                    }
+                                }
+                                Some(scope)
+                            }
+                            _ => None,
+                        };
+                        if let Err(mut e) =
+                            tld.link_constraint_reference(dummy_scope.as_ref().unwrap_or(&self.tlds))
+                        {
                             e.contextualize(&key);
                             warnings.push(e.into());
                         }
